@@ -100,6 +100,17 @@ CLAIMED = {
             "symbolic execution of the real validation code with z3 on containers of symbolic shape / column identity (all call "
             "histories up to the bound against the acceptance rule), plus relational runs: history+malformed+input vs "
             "history+input and container-kind equivalence with complete-state equality"),
+    "C15": ("DESIGN.md 7/C15",
+            "the symbolic runs execute the real numpy/pandas on object-dtype containers: that object and float64 containers get "
+            "a view or a copy from the same operations is compared with the real libraries at the start of every run, and every "
+            "sampled path and counterexample is re-executed on float64 containers; numeric kernels are functions of the "
+            "contents of their arguments (drivers of C01/C02); multi-block / mixed-dtype frames, MD3, ensembles and "
+            "FeatureCoverInjector outside the claim",
+            "relational (non-interference) symbolic execution with z3: a detector handed caller-owned containers of symbolic "
+            "cells (C / Fortran arrays, strided views, DataFrames, lists, Series) whose cells the caller overwrites in place "
+            "with fresh symbols after a call, against a twin handed private copies - complete-state equality after every later "
+            "call, caller objects proved unmodified after every call; injectors: new object of the same type, input cells "
+            "unchanged, no buffer shared with the result, dictionary arguments unchanged"),
     "C16": ("DESIGN.md 7/C16",
             "label re-encodings modelled by opaque equality-only values (uninterpreted sort) vs symbolic integers; kernel stubs "
             "of C01/C02 for the data-drift detectors; MD3 excluded (C19)",
@@ -141,10 +152,7 @@ CLAIMED = {
 }
 
 NOT_YET = "check not built yet in this round (planned, see DESIGN.md section 7)"
-NA = {
-    "C15": "aliasing / view-vs-copy behaviour is decided inside numpy/pandas C code as a function of dtype layout; "
-           "symbolic execution of menelaus on object-dtype proxies cannot observe it (DESIGN.md section 8)",
-}
+NA = {}
 
 def main():
     props = [json.loads(l)["id"] for l in open(os.path.join(HERE, "properties.jsonl"))]
